@@ -55,6 +55,9 @@ const WINDOW: Duration = Duration::from_secs(20);
 const MIB16: usize = 16 << 20;
 const LONG_ROUTE: &str = "/blob/with/a/much/longer/route/name/0123456789";
 const LONG_METHOD: &str = "/events/with/a/longer/method/name";
+/// 109 bytes, non-ASCII: every byte offset from 9 on that is even falls inside a two-byte character (a report or a replacement
+/// text that quotes a byte-limited prefix of the method must still be well-formed)
+const NONASCII_METHOD: &str = "/mesures/éééééééééééééééééééééééééééééééééééééééééééééééééé";
 
 #[derive(Clone, Copy, Debug, Hash, PartialEq, Eq, PartialOrd, Ord)]
 enum Path {
@@ -770,7 +773,7 @@ async fn server_case(rc: &mut Rc, srv: &Srv, cx: &mut Ctx<'_>, c: &CaseSpec, tok
             let route = if v & 1 == 0 { "/push" } else { "/bpush" };
             let fmt = (v >> 1) & 3;
             let room = (v >> 3) & 1 == 1;
-            let method = if (v >> 4) & 1 == 0 { "/evt" } else { LONG_METHOD };
+            let method = if (v >> 4) & 1 == 0 { "/evt" } else if c.size % 2 == 0 { LONG_METHOD } else { NONASCII_METHOD };
             let b = c.size - 48 - method.len();
             let Some((_, body)) = sized_body(tok, if fmt == 3 { 2 } else { fmt }, b) else { return true };
             let bf: u16 = match fmt {
@@ -821,7 +824,7 @@ async fn server_case(rc: &mut Rc, srv: &Srv, cx: &mut Ctx<'_>, c: &CaseSpec, tok
         Path::Broadcast => {
             let v = c.variant;
             let fmt = v & 3;
-            let method = if (v >> 2) & 1 == 0 { "/evt" } else { LONG_METHOD };
+            let method = if (v >> 2) & 1 == 0 { "/evt" } else if c.size % 2 == 0 { LONG_METHOD } else { NONASCII_METHOD };
             let b = c.size - 48 - method.len();
             let Some((k, body)) = sized_body(tok, fmt, b) else { return true };
             if srv.peers.len() != 1 {
